@@ -15,15 +15,15 @@ CLAIMED = {
         note="Trusted: the reference queue model, the reduction argument that receiver-local steps commute with sender critical sections (so interleaving at lock hooks and processor/wait/watcher seams is complete for inline mode), the hook placement (one before_lock per acquisition of the channel state lock)."),
     "C07": dict(engine="chan-inline + chan-threads + tokio-receiver + file-e2e + otlp-delivery", design="5/C07",
         technique="deterministic simulation with fault injection; history check at the instant each flush reports completion",
-        text="Seeded exploration of flush requests (when_flushed, async flush) racing with hand-off, retries, failures, panics and truncation; a post-hoc check over the recorded history demands that at the completion event of every flush no item sent before the request is queued, in flight or awaiting retry. Also: the tokio-hosted receiver on real tokio threads with tokio::flush / blocking_flush from plain threads and runtimes (flush true only when everything sent before has finished).",
+        text="Seeded exploration of flush requests (when_flushed, async flush) racing with hand-off, retries, failures, panics and truncation; a post-hoc check over the recorded history demands that at the completion event of every flush no item sent before the request is queued, in flight or awaiting retry. Also: the tokio-hosted receiver on real tokio threads with tokio::flush / blocking_flush from plain threads and runtimes (flush true only when everything sent before has finished). The file engine also holds its runtime handle as the flush-on-drop guard (InitGuard): dropping it is a flush after which everything emitted must be durable.",
         note="Trusted: event sequence numbers are assigned by the single simulator thread; flushes completing at or after an injected receiver teardown carry no obligation (statement: while the receiver is alive)."),
     "C08": dict(engine="chan-inline + chan-threads + calling-contexts + tokio-receiver + file-e2e + otlp-delivery", design="5/C08",
         technique="deterministic simulation with fault injection; bounded-liveness and exactly-once-callback oracles on a virtual clock",
-        text="Seeded exploration of processor outcome scripts (ok, permanent failure, retry with any remainder, panic in call or future, latency), panicking watchers, early sender drop; oracles: bounded attempts, non-decreasing bounded back-off reset per batch, callbacks exactly once, receiver drains and terminates within a step budget once the sender is dropped. Also: the tokio-hosted receiver on real tokio threads (termination on sender drop, flush and lossless sends succeed within a minute), idle stretches long enough for the idle back-off to sit at its cap for dozens of polls.",
+        text="Seeded exploration of processor outcome scripts (ok, permanent failure, retry with any remainder, panic in call or future, latency), panicking watchers, early sender drop; oracles: bounded attempts, non-decreasing bounded back-off reset per batch, callbacks exactly once, receiver drains and terminates within a step budget once the sender is dropped. Also: the tokio-hosted receiver on real tokio threads (termination on sender drop, flush and lossless sends succeed within a minute), idle stretches long enough for the idle back-off to sit at its cap for dozens of polls. A third of the retry storms hand out 200 failures, so that a batch which is never given up exceeds the bound of 64 attempts.",
         note="Trusted: step budget (2500 controller steps after close) is generous relative to the retry budget; retuned constants do not alarm (bounds are 64 attempts / 5 min)."),
     "C09": dict(engine="chan-inline + chan-threads + calling-contexts + tokio-receiver + file-e2e + otlp-delivery", design="5/C09",
         technique="deterministic simulation; reference-queue oracle compared with a state snapshot after every operation; lock-held-at-seam detector",
-        text="Seeded exploration with small capacities, stalled / absent receivers and all send variants; after every operation the real queue length (snapshot hook and queue_length metric) must equal the reference queue and never exceed capacity; overflow keeps the newest item and counts once; try_send / async send hand the same item back, and only at or after expiry. Also: a blocking send that starts a wait past its deadline is a violation of this property too (hand back when the timeout expires).",
+        text="Seeded exploration with small capacities, stalled / absent receivers and all send variants; after every operation the real queue length (snapshot hook and queue_length metric) must equal the reference queue and never exceed capacity; overflow keeps the newest item and counts once; try_send / async send hand the same item back, and only at or after expiry. Also: a blocking send that starts a wait past its deadline is a violation of this property too (hand back when the timeout expires). Memory is measured too: the simulator counts its live heap bytes, and in the file engine's overflow mode (up to three overflows of the 10 000-event channel while the worker sits in one stalled filesystem call) what a burst leaves allocated is bounded by what half a full queue cost.",
         note="Trusted: verif_snapshot() reads the same fields the channel uses; virtual-time expiry comparisons are exact."),
 }
 
@@ -48,15 +48,15 @@ CLAIMED.update({
 CLAIMED.update({
     "C04": dict(engine="ctx-spans-tree", design="5/C04",
         technique="deterministic simulation: generated span trees through the real span macros executed on seeded lanes with hand-offs, checked against the known tree over the recorded history",
-        text="Seeded exploration of span trees (sync fn, async fn, new_span!, Result fn, guard parameter; filter-disabled nodes; events and observations at arbitrary points; incoming ids as typed values or hex text) split over 1-3 tasks plus carried-frame sibling tasks and hand-off threads, polled one poll at a time on 1-3 lanes. The interpreter knows the tree; every recorded span and event must carry the root's (or incoming) trace id, span_parent must be the id of the nearest enabled ancestor, ids must be non-zero and pairwise distinct, events and SpanCtxt::current must show the innermost enabled span, and ambient ids must revert when a span ends.",
+        text="Seeded exploration of span trees (sync fn, async fn, new_span!, Result fn, guard parameter; filter-disabled nodes; events and observations at arbitrary points; incoming ids as typed values or hex text) split over 1-3 tasks plus carried-frame sibling tasks and hand-off threads, polled one poll at a time on 1-3 lanes. The interpreter knows the tree; every recorded span and event must carry the root's (or incoming) trace id, span_parent must be the id of the nearest enabled ancestor, ids must be non-zero and pairwise distinct, events and SpanCtxt::current must show the innermost enabled span, and ambient ids must revert when a span ends. Incoming ids as hex text come in lower, upper and mixed case.",
         note="Trusted: the interpreter's tree bookkeeping; the counter rng never repeats; cancellation is excluded here (a cancelled async span completes outside its frame; C05 covers it and asserts no ids)."),
     "C05": dict(engine="ctx-spans-completion", design="5/C05",
         technique="deterministic simulation: generated guard-operation sequences and macro span forms with injected exit paths (Err, panic, early completion, cancellation) under scripted clocks (forward, equal, backwards, unavailable)",
-        text="Seeded exploration of operation sequences on manual SpanGuards (with_mdl/with_name/with_props/map_props/with_completion/start repeated/complete/complete_with/drop) with uniform erased types so any order type-checks, plus all macro forms (span attribute on sync/async/Result functions, guard parameter, ok_lvl/err_lvl/panic_lvl, new_span!) and exit paths. Oracle: completions per guard = 1 iff enabled and started, is_enabled and returned bools agree with the model after every operation, extent = range [reading at start, reading at completion] attributed through a per-strand clock log (also when it runs backwards), name/module/props/completion as last set, panic adds err and the panic level. Explicit completions whose receiver (emitter or completion) panics after seeing the span must not complete again while the guard unwinds.",
+        text="Seeded exploration of operation sequences on manual SpanGuards (with_mdl/with_name/with_props/map_props/with_completion/start repeated/complete/complete_with/drop) with uniform erased types so any order type-checks, plus all macro forms (span attribute on sync/async/Result functions, guard parameter, ok_lvl/err_lvl/panic_lvl, new_span!) and exit paths. Oracle: completions per guard = 1 iff enabled and started, is_enabled and returned bools agree with the model after every operation, extent = range [reading at start, reading at completion] attributed through a per-strand clock log (also when it runs backwards), name/module/props/completion as last set, panic adds err and the panic level. Explicit completions whose receiver (emitter or completion) panics after seeing the span must not complete again while the guard unwinds. Leveled macro forms with a panic level are part of the forms.",
         note="Trusted: the guard model; clock readings are attributed to strands through a thread-local set at every poll."),
     "C18": dict(engine="ctx-spans-traceparent", design="5/C18",
         technique="deterministic simulation: generated span trees over the real emit_traceparent runtime pieces with a scripted sampler, incoming headers, header propagation to fresh tasks, hand-offs and seeded interleavings",
-        text="Seeded exploration over TraceparentCtxt<ThreadLocalCtxt> + TraceparentFilter with a scripted per-root sampler decision (optionally and in_sampled_trace_filter): the sampler log must show exactly one call per new trace at its root and none for children or continued traces; unsampled traces record no span (and no event with the sampled-trace filter) and report an unsampled traceparent; in sampled traces Traceparent::current() = (trace id, innermost span id, sampled) at every observation on every thread/task, a formatted header parsed and pushed in a fresh task makes its first span a child of the caller's span, and the previous traceparent is restored after every exit, suspend and panic (checked on every lane after every poll). Spans with an explicit span_id among their own properties (typed, hex text, integer) are part of the trees.",
+        text="Seeded exploration over TraceparentCtxt<ThreadLocalCtxt> + TraceparentFilter with a scripted per-root sampler decision (optionally and in_sampled_trace_filter): the sampler log must show exactly one call per new trace at its root and none for children or continued traces; unsampled traces record no span (and no event with the sampled-trace filter) and report an unsampled traceparent; in sampled traces Traceparent::current() = (trace id, innermost span id, sampled) at every observation on every thread/task, a formatted header parsed and pushed in a fresh task makes its first span a child of the caller's span, and the previous traceparent is restored after every exit, suspend and panic (checked on every lane after every poll). Spans with an explicit span_id among their own properties (typed, hex text, integer) are part of the trees. Half of the pushed headers go through the crate-level emit_traceparent::push(traceparent, tracestate).",
         note="Trusted: the interpreter's tree bookkeeping; thread/task hand-offs use Frame::current(rt.ctxt()), the documented way to carry ambient context."),
 })
 
@@ -74,7 +74,7 @@ CLAIMED.update({
         note="Trusted: the scripted collector and marker extraction (markers survive both encodings verbatim); faults stop inside the retry budget (at most 6 consecutive failures per signal); timers only fire when nothing is runnable (no artificial starvation of the worker against the 30 s request timeout). TLS and real sockets are not exercised."),
     "C14": dict(engine="otlp-routing", design="5/C14",
         technique="deterministic simulation: observation at the collector endpoints after worker, transport and retries, over all eight signal subsets incl. outage configurations; event shapes by seeded generation against a reference routing function",
-        text="Events over kind {none, span, metric, unknown} x extent {none, point, range} x metric value {number, numeric sequence, text, missing} through all eight subsets of configured signals, fault-free and with collector faults / a dead host. Each marker must only ever appear at the endpoint a 10-line reference routing function names, and event_discarded must equal the number of unroutable events. The event-shape dimension is ordinary seeded generation; simulation contributes the observation point (what the collector endpoints actually receive, including retried requests) and the outage configurations. Span events carry ids typed, as text, partially, not at all or unparsable; one event in ten is emitted from inside the formatting of another (a panic out of Otlp::emit is a violation).",
+        text="Events over kind {none, span, metric, unknown} x extent {none, point, range} x metric value {number, numeric sequence, text, missing} through all eight subsets of configured signals, fault-free and with collector faults / a dead host. Each marker must only ever appear at the endpoint a 10-line reference routing function names, and event_discarded must equal the number of unroutable events. The event-shape dimension is ordinary seeded generation; simulation contributes the observation point (what the collector endpoints actually receive, including retried requests) and the outage configurations. Span events carry ids typed, as text, partially, not at all or unparsable; one event in ten is emitted from inside the formatting of another (a panic out of Otlp::emit is a violation). Shadowed well-known keys sit in the same property list or in a second one chained behind with and_props.",
         note="Trusted: the reference routing function; the caveat in DESIGN.md section 5/C14 (the routing choice itself is schedule-independent)."),
 })
 
